@@ -479,3 +479,76 @@ func FuzzTenant(f *testing.F) {
 		}
 	})
 }
+
+// TestPreexistingIDsRapid: the outgoing request already carries an org id (a proxy forwarding an
+// inbound request, a reused request object). Either it is exactly the context's id and the request
+// goes out with exactly that id, or the injection is refused and the carried id is left alone: what
+// arrives is never an id other than the sender's, however similar (case, metadata suffix, spacing).
+func TestPreexistingIDsRapid(t *testing.T) {
+	variantOf := func(rt *rapid.T, org string) string {
+		switch rapid.IntRange(0, 6).Draw(rt, "preexistingKind") {
+		case 0:
+			return org
+		case 1:
+			return strings.ToUpper(org)
+		case 2:
+			return strings.ToLower(org)
+		case 3:
+			if org == "" {
+				return "x"
+			}
+			b := []byte(org)
+			i := rapid.IntRange(0, len(b)-1).Draw(rt, "flipCaseAt")
+			b[i] ^= 0x20
+			return string(b)
+		case 4:
+			return org + ":k=v"
+		case 5:
+			return " " + org
+		default:
+			return genOrg(rt)
+		}
+	}
+	rapid.Check(t, func(rt *rapid.T) {
+		org := rapid.OneOf(rapid.StringMatching(`[a-zA-Z][a-zA-Z0-9_-]{0,8}(:[a-z]=[a-zA-Z0-9]{1,3})?`), rapid.Custom(genOrg)).Draw(rt, "org")
+		if org == "" {
+			org = "t"
+		}
+		pre := variantOf(rt, org)
+		ctx := user.InjectOrgID(context.Background(), org)
+		vx.Eval(2)
+		if pre != org && strings.EqualFold(pre, org) {
+			vx.NonTrivial(vx.FP("pre-case", org, pre))
+			vx.Class("preexisting_id_differs_in_case_only", 1)
+		} else if pre != org {
+			vx.NonTrivial(vx.FP("pre", org, pre))
+		}
+		// HTTP
+		req := httptest.NewRequest("GET", "http://x/", nil)
+		req.Header.Set(user.OrgIDHeaderName, pre)
+		err := user.InjectOrgIDIntoHTTPRequest(ctx, req)
+		got := req.Header.Get(user.OrgIDHeaderName)
+		switch {
+		case pre == org || pre == "":
+			if err != nil || got != org {
+				rt.Fatalf("HTTP: context id %q, request already carrying %q: err=%v, header %q; want the request to go out with the context's id", org, pre, err, got)
+			}
+		case err == nil:
+			rt.Fatalf("HTTP: context id %q, request already carrying the different id %q: accepted (header now %q); want ErrDifferentOrgIDPresent", org, pre, got)
+		case err != user.ErrDifferentOrgIDPresent || got != pre:
+			rt.Fatalf("HTTP: context id %q, request already carrying %q: err=%v header=%q; want ErrDifferentOrgIDPresent and the header left alone", org, pre, err, got)
+		}
+		// gRPC
+		octx := metadata.NewOutgoingContext(ctx, metadata.Pairs("x-scope-orgid", pre))
+		out, err := user.InjectIntoGRPCRequest(octx)
+		if pre == org {
+			md, _ := metadata.FromOutgoingContext(out)
+			if err != nil || len(md.Get("x-scope-orgid")) != 1 || md.Get("x-scope-orgid")[0] != org {
+				rt.Fatalf("gRPC: context id %q, metadata already carrying it: err=%v metadata=%v", org, err, md.Get("x-scope-orgid"))
+			}
+		} else if err != user.ErrDifferentOrgIDPresent {
+			md, _ := metadata.FromOutgoingContext(out)
+			rt.Fatalf("gRPC: context id %q, metadata already carrying the different id %q: err=%v (metadata now %v); want ErrDifferentOrgIDPresent", org, pre, err, md.Get("x-scope-orgid"))
+		}
+	})
+}
